@@ -31,6 +31,7 @@ type Client struct {
 	UndecodableFromProxy []string
 	Unsolicited          []string
 	ProxyID              int // which proxy instance it is connected to
+	Hostile              bool // sends mutated frames: replies cannot be attributed
 	LowestFree           bool // stream policy: always reuse the lowest free id (immediate reuse)
 }
 
@@ -97,6 +98,9 @@ func (c *Client) OnData(l *simnet.Link, b []byte) {
 			s := fmt.Sprintf("%s: frame on stream %d with no outstanding request: %v", c, stream, frm.Body.Message)
 			c.Unsolicited = append(c.Unsolicited, s)
 			w.Logf("%s", s)
+			if c.Hostile {
+				continue // this client mutates its own frames (stream ids included)
+			}
 			w.Violate("unsolicited", "duplicate-or-unsolicited-response",
 				fmt.Sprintf("client received a frame on stream %d with no request outstanding on it: %v", stream, frm.Body.Message))
 			continue
